@@ -511,3 +511,132 @@ def gen_self_alias(rng):
         st['s'] = rng.choice([['c', 1.0, -2.0], ['c', 0.0, 1.0], 2.0, -1.0, ['c', 0.5, 0.5]])
     p.push(st, {'kind': 'none'} if op != 'add' else p.arr(A['legs'], A['labels']))
     return p.case()
+
+
+# ---- targeted: tensors WITHOUT stored blocks as receivers / operands of dtype-changing operations ------------------------
+# The dtype of an Array is an observable of its own (it is not determined by the stored blocks when there are none, or when the
+# blocks of the wider operand are missing), so the programs below put block-free tensors of every dtype into every operation that
+# may change the dtype: *=, /=, iscale_prefactor, *, /, +, -, +=, -=, iadd_prefactor_other (python and numpy-typed prefactors),
+# iunary/unary_blockwise with dtype-changing functions, conj/iconj/complex_conj, astype, negation.
+
+DTYPES5 = ['float64', 'complex128', 'float32', 'complex64', 'int64']
+TYPED_SCALARS = [2.0, -1.5, 3, ['c', 0.0, 1.0], ['c', 1.0, -2.0], 0.5, ['n', 'float64', 2.0, 0.0], ['n', 'float32', 0.5, 0.0],
+                 ['n', 'complex128', 0.0, 1.0], ['n', 'complex64', 1.0, 1.0], ['n', 'int64', 3, 0], 0.0, ['c', 0.0, 0.0]]
+
+
+def gen_blockfree_inplace(rng):
+    p = Prog(rng, empty_blocks=False, bad_rate=0.0, worker_rate=0.0)
+    rank = rng.choice([1, 2, 2, 3])
+    types = [['L', rng.randrange(len(p.pool)), rng.choice([1, -1])] for _ in range(rank)]
+    labels = rng.sample(LABELS[:8], rank)
+    a = p.new(types=types, labels=labels, dtype=rng.choice(DTYPES5), fill=0.0)
+    qt = p.steps[a]['spec']['qtotal']
+    A = p.regs[a]
+    live = [a]
+    for _ in range(rng.choice([1, 2, 2])):
+        live.append(p.new(like=a, qtotal=qt, dtype=rng.choice(DTYPES5), fill=rng.choice([0.0, 0.0, 0.5, 1.0])))
+    for _ in range(rng.randint(2, 5)):
+        # the block-free tensor is preferred as receiver; with two operands it is on either side
+        x = a if rng.random() < 0.5 else rng.choice(live)
+        r = rng.random()
+        if r < 0.35:
+            op = rng.choice(['iscale', 'iscale_prefactor', 'idiv', 'scale', 'rscale', 'div'])
+            s = rng.choice(TYPED_SCALARS)
+            if op in ('div', 'idiv') and s in (0.0, 0, ['c', 0.0, 0.0]):
+                s = 2.0
+            if op in ('iscale', 'iscale_prefactor', 'idiv'):
+                p.push({'op': op, 'a': x, 's': s}, {'kind': 'none'})
+            else:
+                live.append(p.push({'op': op, 'a': x, 's': s}, p.arr(A['legs'], A['labels'])))
+        elif r < 0.7:
+            y = rng.choice([t for t in live if t != x] or live)
+            if rng.random() < 0.5:
+                x, y = y, x
+            op = rng.choice(['add', 'sub', 'iadd', 'isub', 'iadd_prefactor_other', 'iadd_prefactor_other'])
+            st = {'op': op, 'a': x, 'b': y}
+            if op == 'iadd_prefactor_other':
+                st['s'] = rng.choice(TYPED_SCALARS)
+            if op in ('add', 'sub'):
+                live.append(p.push(st, p.arr(A['legs'], A['labels'])))
+            else:
+                p.push(st, {'kind': 'none'})
+        elif r < 0.85:
+            op = rng.choice(['iunary', 'unary'])
+            st = {'op': op, 'a': x, 'f': rng.choice(['real', 'imag', 'abs', 'sqrt', 'conj', 'negative', 'square'])}
+            if op == 'unary':
+                live.append(p.push(st, p.arr(A['legs'], A['labels'])))
+            else:
+                p.push(st, {'kind': 'none'})
+        else:
+            op = rng.choice(['astype', 'neg', 'complex_conj', 'copy_deep', 'norm'])
+            st = {'op': op, 'a': x}
+            if op == 'astype':
+                st['dtype'] = rng.choice(DTYPES5)
+            if op == 'norm':
+                p.push(st, {'kind': 'scalar'})
+            else:
+                live.append(p.push(st, p.arr(A['legs'], A['labels'])))
+    return p.case()
+
+
+# ---- targeted: public indexing (results of rank >= 1 AND scalars: the Array class has no rank 0) ---------------------------
+
+def gen_indexing(rng):
+    """a[...] with integers / slices / masks / index arrays / Ellipsis per axis, a[i, j, ...] = value, take_slice, squeeze;
+    integer indices on every axis give a scalar (the only 'rank-0' result the public interface produces)"""
+    p = Prog(rng, empty_blocks=False, bad_rate=0.0, worker_rate=0.0)
+    rank = rng.choice([1, 2, 2, 3, 3])
+    types = [['L', rng.randrange(len(p.pool)), rng.choice([1, -1])] for _ in range(rank)]
+    a = p.new(types=types, dtype=rng.choice(DTYPES5), fill=rng.choice([1.0, 1.0, 0.6, 0.3, 0.0]))
+    lens = [sum(p.pool[t[1]]['sizes']) for t in types]
+
+    def one(n, kinds):
+        k = rng.choice(kinds)
+        if k == 'int':
+            return rng.randrange(-n, n) if rng.random() < 0.95 else n
+        if k == 'all':
+            return 'all'
+        if k == 'slice':
+            lo = rng.choice([None, 0, rng.randrange(n), rng.randrange(n)])
+            hi = rng.choice([None, n, rng.randint(0, n), (lo or 0) + 1])
+            return ['s', lo, hi, rng.choice([None, None, 1, 2, -1])]
+        if k == 'mask':
+            return ['m', [rng.random() < 0.6 for _ in range(n)]]
+        ii = [rng.randrange(n) for _ in range(rng.randint(1, n))]
+        if rng.random() < 0.6:
+            ii = sorted(set(ii))
+        return ['i', ii]
+
+    for _ in range(rng.randint(3, 6)):
+        r = rng.random()
+        if r < 0.3:      # every axis an integer: a scalar
+            idx = [one(n, ['int']) for n in lens]
+            if rng.random() < 0.3:
+                p.push({'op': 'setitem', 'a': a, 'idx': idx, 's': rng.choice([1.0, 0.0, 2, ['c', 0.0, 1.0], -3.5])}, {'kind': 'none'})
+            else:
+                p.push({'op': 'getitem', 'a': a, 'idx': idx}, {'kind': 'scalar'})
+        elif r < 0.75:
+            idx = [one(n, ['int', 'int', 'all', 'slice', 'slice', 'mask', 'ind']) for n in lens]
+            if all(isinstance(x, int) for x in idx):
+                idx[rng.randrange(rank)] = 'all'
+            if rng.random() < 0.2:
+                idx = idx[:rng.randint(1, rank)]
+            elif rng.random() < 0.15:
+                k = rng.randrange(rank)
+                idx = idx[:k] + ['ell'] + idx[k + rng.randint(0, rank - k):]
+            g = p.push({'op': 'getitem', 'a': a, 'idx': idx}, p.arr_opaque())
+            if rng.random() < 0.4:
+                p.push({'op': rng.choice(['squeeze', 'norm', 'copy_deep']), 'a': g}, p.arr_opaque())
+        elif r < 0.9:
+            k = rng.randint(1, rank)
+            axes = rng.sample(range(rank), k)
+            p.push({'op': 'take_slice', 'a': a, 'indices': [rng.randrange(lens[i]) for i in axes],
+                    'axes': [p.axis_ref(a, i) for i in axes]}, p.arr_opaque() if k < rank else {'kind': 'junk'})
+        else:            # slices of length one on every axis, then squeeze: a scalar again
+            idx = []
+            for n in lens:
+                i = rng.randrange(n)
+                idx.append(['s', i, i + 1, None])
+            g = p.push({'op': 'getitem', 'a': a, 'idx': idx}, p.arr_opaque())
+            p.push({'op': 'squeeze', 'a': g}, {'kind': 'scalar'})
+    return p.case()
